@@ -355,9 +355,11 @@ impl<'a> Builder<'a> {
             let n = *self.rng.pick(&[1usize, 1, 1, 2, 3]);
             let pic = " ".repeat(n);
             // never empty: two texts must not run into each other
-            let txt = match self.rng.below(4) {
+            // (any ASCII white space separates fields: blank, TAB, LF, CR LF, FF)
+            let txt = match self.rng.below(8) {
                 0 => "\t".to_string(),
                 1 => "  ".to_string(),
+                2 => (*self.rng.pick(&["\n", "\r\n", "\x0c", " \n "])).to_string(),
                 _ => " ".to_string(),
             };
             self.toks.push(Tok {
@@ -781,7 +783,7 @@ pub fn gen_parse(rng: &mut Rng, sw: &Swarm, now: &Reading) -> OpKind {
     if sw.extra_blanks && rng.chance(1, 5) {
         toks.push(Tok {
             pic: (*rng.pick(&[" ", "  "])).to_string(),
-            txt: (*rng.pick(&["", " ", " \t"])).to_string(),
+            txt: (*rng.pick(&["", " ", " \t", "\n", "\r\n"])).to_string(),
             sem: Sem::Blank,
         });
     }
@@ -817,6 +819,11 @@ pub fn gen_parse(rng: &mut Rng, sw: &Swarm, now: &Reading) -> OpKind {
         // never leave a cut right before a separator's text: cut positions are token starts
         for t in toks.iter_mut().skip(cut.max(1)) {
             t.txt.clear();
+        }
+        // the text that stops early often ends in white space: an untrimmed line, a CR LF file
+        if rng.chance(1, 3) {
+            let ws = *rng.pick(&["\n", "\r\n", " ", "\t", "\x0c", " \n"]);
+            toks.push(Tok { pic: String::new(), txt: ws.to_string(), sem: Sem::Blank });
         }
     }
     // Forms whose acceptance C18 does not speak about, used only where the text supplies the full
